@@ -667,5 +667,5 @@ def plan(tier):
   return [
     Enum("histories<=3", lambda: enum_histories(3), shards=16),
     Enum("core-histories=4", lambda: enum_histories(4, CORE, 4), shards=16),
-    Hyp("histories", lambda: _history(60), examples=60000, shards=16),
+    Hyp("histories", lambda: _history(60), examples=200000, shards=16),
   ]
